@@ -78,7 +78,10 @@ class EditGen:
             ['script_semantic'] * 2 + ['mkdir'] * 2 + ['modify'] + \
             ['tick'] + ['hold'] + ['add_submodule']
         if getattr(self, 'added_subs', None):
-            kinds += ['remove_submodule'] * 2
+            kinds += ['remove_submodule'] * 2 + ['lose_sub_script']
+        if 'options.bfg' in self.proj.scripts and \
+           os.path.exists(self.world.s('options.bfg')):
+            kinds += ['lose_options']
         if rfiles:
             kinds += ['remove_file'] * 4 + ['rename_file'] * 2 + \
                 ['move_file'] * 2 + ['file_to_dir']
@@ -110,6 +113,17 @@ class EditGen:
             line = "{0} = submodule('{0}')\n".format(name)
             return [['write', 'build.bfg', text.replace(line, '')],
                     ['remove', name]], 'remove_submodule'
+        if k == 'lose_options':
+            # an input of the regenerate step vanishes while the main script
+            # is untouched (fresh configure may or may not still work)
+            if rng.random() < 0.5:
+                return [['remove', 'options.bfg']], 'remove_options'
+            return [['rename', 'options.bfg', 'options.bfg.bak']], \
+                'rename_options'
+        if k == 'lose_sub_script':
+            name = rng.choice(self.added_subs)
+            return [['rename', name + '/build.bfg',
+                     name + '/build.bfg.off']], 'lose_sub_script'
         if k == 'absent_base':
             # create (or remove again) the missing base of a search
             if os.path.isdir(self.world.s(absent)):
